@@ -13,10 +13,17 @@ use std::sync::{Arc, Mutex};
 use std::time::{Duration, Instant};
 
 fn class_of<'a>(type_map: &'a TypeMap, name: &str) -> Option<Class<'a>> {
-    // the space a document sees: builtin (primitive) types plus the module
+    // the space a document sees: builtin (primitive) types plus the module; a name "m2:X" is looked up in the second module
+    // (which imports the first), so that two distinct classes may carry the same unqualified name
     let mut module = ImportedModuleSpace::new(type_map);
     assert!(module.import_module(ModuleId::Builtins));
-    assert!(module.import_module(ModuleId::Named("m")));
+    let name = if let Some(n) = name.strip_prefix("m2:") {
+        assert!(module.import_module(ModuleId::Named("m2")));
+        n
+    } else {
+        assert!(module.import_module(ModuleId::Named("m")));
+        name
+    };
     match module.get_type(name) {
         Some(Ok(NamedType::Class(c))) => Some(c),
         _ => None,
@@ -35,7 +42,7 @@ fn answer(type_map: &TypeMap, q: &Value) -> Value {
             None => json!({"noclass": true}),
         },
         "prop" => match cls.get_property(s("n")) {
-            Some(Ok(p)) => json!({"found": true, "owner": p.object_class().name()}),
+            Some(Ok(p)) => json!({"found": true, "owner": p.object_class().name(), "same_as_queried": p.object_class() == &cls}),
             Some(Err(e)) => json!({"found": false, "err": e.to_string()}),
             None => json!({"found": false}),
         },
@@ -118,6 +125,14 @@ pub fn cmd_typemap() {
             }
         }
         type_map.insert_module(ModuleId::Named("m"), module_data);
+        if let Some(cs) = req["classes2"].as_array() {
+            // a second module importing the first
+            let classes2: Vec<metatype::Class> = cs.iter().map(|c| serde_json::from_value(c.clone()).expect("class json")).collect();
+            let mut m2 = ModuleData::with_builtins();
+            m2.import_module(ModuleId::Named("m"));
+            m2.extend(classes2);
+            type_map.insert_module(ModuleId::Named("m2"), m2);
+        }
         let mut answers = Vec::new();
         for (i, q) in req["queries"].as_array().expect("queries").iter().enumerate() {
             *current.lock().unwrap() = (req["id"].to_string(), i);
